@@ -414,13 +414,9 @@ class Parser:
                 f"unexpected {msg} after '!'", token=stream.current
             )
 
-        return PrefixExpression(
-            tok,
-            operator="!",
-            right=self.parse_filter_expression(
-                stream, precedence=self.PRECEDENCE_PREFIX
-            ),
-        )
+        right = self.parse_filter_expression(stream, precedence=self.PRECEDENCE_PREFIX)
+        self._raise_for_uncompared_value_function(right)
+        return PrefixExpression(tok, operator="!", right=right)
 
     def parse_infix_expression(
         self, stream: TokenStream, left: Expression
@@ -453,6 +449,8 @@ class Parser:
                 token=right.token,
             )
 
+        self._raise_for_uncompared_value_function(left)
+        self._raise_for_uncompared_value_function(right)
         return LogicalExpression(tok, left, operator, right)
 
     def parse_grouped_expression(self, stream: TokenStream) -> Expression:
@@ -692,6 +690,17 @@ class Parser:
 
     def _is_low_surrogate(self, codepoint: int) -> bool:
         return codepoint >= 0xDC00 and codepoint <= 0xDFFF
+
+    def _raise_for_uncompared_value_function(self, expr: Expression) -> None:
+        if isinstance(expr, FunctionExtension):
+            func = self.env.function_extensions.get(expr.name)
+            if (
+                isinstance(func, FilterFunction)
+                and func.return_type == ExpressionType.VALUE
+            ):
+                raise JSONPathTypeError(
+                    f"result of {expr.name}() must be compared", token=expr.token
+                )
 
     def _raise_for_non_comparable_function(
         self, expr: Expression, token: Token
